@@ -64,6 +64,16 @@ prop('C06', 'model_checking',
      'iteration per query; itm_step/store/progress bar stubbed (listed in evidence); an event exactly at t0 is a listed known finding.',
      'bounded symbolic execution of the real loop body + z3 inductive invariant check', 'DESIGN.md 3/C06')
 
+prop('C08', 'other',
+     'Real EIG.calc_As/_reduce/_reorder/find_zero_states executed under pysym on fully symbolic fx, fy, gx, gy, Tf for every '
+     'zero-time-constant pattern (n<=3, m<=2): z3 decides entry-wise equality of the returned state matrix with '
+     'T_D^-1(F_DD - F_DZ F_ZZ^-1 F_ZD), F = fx - fy gy^-1 gx (division-free adjugate form) and that the reported names are the '
+     'remaining states; _store_stats counts partition the eigenvalues; calc_pfactor: factors >= 0 and each mode sums to 1 with the '
+     'LAPACK calls stubbed by arbitrary matrices; the report arg-max loop (cut from source) picks a largest factor.',
+     'kvxopt replaced by a dense stub in exploration (replays use kvxopt/KLU); LAPACK eigen-solver outside; floats as reals; '
+     'gy and the zero-T block non-singular.',
+     'path-forking symbolic execution of real matrix code + z3 nonlinear real arithmetic', 'DESIGN.md 3/C08')
+
 ORDER = ['C%02d' % i for i in range(1, 21)]
 checks, na = [], []
 for pid in ORDER:
